@@ -132,6 +132,9 @@ type FnSpec struct {
 	Lean    string // Lean name of the generated definition
 	Doc     string
 	Binders string            // extra Lean binders, placed first, e.g. "(cb : Cb.Callback)"
+	// Partial: the Lean result is `Option _` even if the body neither indexes nor loops (its Steps can
+	// yield `none`)
+	Partial bool
 	// Captures: Go locals (loop variables) that Vals / Funcs templates refer to on purpose
 	Captures []string
 	// SkipParams: Go parameters of a type outside the subset that Binders / Vals stand in for
@@ -2089,6 +2092,9 @@ func GenBody(spec *FnSpec) string {
 	})
 	for _, c := range spec.Captures {
 		delete(t.reserved, c)
+	}
+	if spec.Partial {
+		t.mayPanic = true
 	}
 	sc := bscope{depth: 1} // parameters and named results live in the scope of the function body
 	var binders []string
